@@ -630,7 +630,8 @@ func (b *Reader) ReadBytes(data *[]byte, len int32, require bool) error {
 		return fmt.Errorf("read []byte error: length %d, %d bytes left", len, b.buf.Len())
 	}
 	*data = make([]byte, len)
-	_, err := b.buf.Read(*data)
+	// io.ReadFull: an empty buffer at the end of the input is complete, not io.EOF
+	_, err := io.ReadFull(b.buf, *data)
 	return err
 }
 
